@@ -1,5 +1,6 @@
 import RscelModel.Lemmas.LexLoc
 import RscelModel.Lemmas.ParseLoc
+import RscelModel.Lemmas.ParseSpans
 import RscelModel.Model.Spans
 /-
 C18 — Syntax-tree spans are exact and nested; syntax errors point inside the source.
@@ -14,7 +15,10 @@ What is proved here, and about what:
   `StringTokenizer`): `syntax_error_in_source` — whatever text is given, a syntax error of `parseProgram`
   carries a line and column within the source or at the end of one of its lines (induction over the common
   fuel of the 22 mutually recursive `parse*` functions, `Lemmas/ParseLoc.lean`: every error location is one
-  the token source handed out — its current location, a token's start, or a lexical error).
+  the token source handed out — its current location, a token's start, or a lexical error);
+  `span_in_source` — every span anywhere in the tree `parseProgram` returns (all node kinds, operator runs,
+  member names, match cases and patterns included) starts and ends at a position of the source
+  (`Lemmas/ParseSpans.lean`, same induction).
 * **The span checker** (`Model/Spans.lean`): `SpanTree.check` is proved to imply the nested / disjoint /
   in-source statements of the property for *every* node of the tree (`check_child_within_parent`,
   `check_descendant_within`, `check_siblings_disjoint`, `check_unrelated_disjoint`, `check_span_in_source`,
@@ -93,6 +97,18 @@ theorem syntax_error_in_source (src : List Char) (e : PErr) (h : parseProgram la
 
 example : (match parseProgram lazySrc "+".toList with | .error e => e.loc | .ok _ => ⟨9, 9⟩) = ⟨0, 1⟩ := by
   decide
+
+/-- **Every span of the syntax tree lies inside the source** (all inputs): whatever text compiles, each
+    span recorded anywhere in its tree starts and ends at a position of the text (an existing line, a column
+    at most the length of that line). -/
+theorem span_in_source (src : List Char) (a : Ast) (h : parseProgram lazySrc src = .ok a) :
+    ∀ sp ∈ spansOf a, sp.s.validIn src = true ∧ sp.e.validIn src = true := by
+  intro sp hsp
+  have := parseProgram_spans (lazySrc_ok src) src (lazySrc_init src) h sp hsp
+  exact ⟨posFrom_valid this.s, posFrom_valid this.e⟩
+
+example : (match parseProgram lazySrc "x".toList with | .ok a => spansOf a | .error _ => []) =
+    [⟨⟨0, 0⟩, ⟨0, 1⟩⟩, ⟨⟨0, 0⟩, ⟨0, 1⟩⟩] := by decide
 
 /-! ## the span checker -/
 
